@@ -434,6 +434,13 @@ def check_bound_prefilter(ck, P, rid):
                 shrinkers.add(caller)
                 changed = True
     stores = [a for a in f.walk() if a.k == "BinaryOperator" and a.op == "=" and is_bound(X.strip(a.children[0]))]
+    # a helper that updates bound on every one of its paths counts as the update (what "extract function" produces)
+    for g2 in P.all_functions():
+        if g2.name == f.name or not g2.file.startswith("src/"):
+            continue
+        st2 = [a for a in g2.walk() if a.k == "BinaryOperator" and a.op == "=" and is_bound(X.strip(a.children[0]))]
+        if st2 and not g2.cfg.escapes(g2.cfg.entry_point(), {a.id for a in st2}, goal="exit"):
+            stores += list(f.calls(g2.name))
     k = 0
     for c in f.calls():
         if c.callee in shrinkers:
